@@ -20,7 +20,8 @@ POOL = [0, 1, -1, 2, 3, 0.5, -2.5, 100,
         '1', '-2.5', '3.0',
         '', 'a', 'A', 'b', 'abc',
         True, False, None] + list(R.ERRORS)
-EXT = [1234567, 3.14159265, 0.1, 0.2, 1000, -1000, 12345.678, 7.0, -0.5, '1e2', '5E-1', '-2e1', '2.50', 'B', 'aB', ' ', '1 ', 'TRUE', 10]
+EXT = [1234567, 3.14159265, 0.1, 0.2, 1000, -1000, 12345.678, 7.0, -0.5, '1e2', '5E-1', '-2e1', '2.50', 'B', 'aB', ' ', '1 ', 'TRUE', 10,
+       'inf', 'nan', '1e400', '1_000']
 BIN_OPS = ['+', '-', '*', '/', '^', '&', '=', '<>', '<', '<=', '>', '>=']
 ALL_OPS = BIN_OPS + ['neg', '%']
 
@@ -140,7 +141,8 @@ def work(job):
 
 
 EXT_THOROUGH = [4, 5, 7, 9, 10.5, -3, -7, 0.25, 0.75, 1.5, 99, 101, 999.5, 1e-3, -1e-3, 123456, '0', '00', '1.0', '-0', '+1', '.5', '5.',
-                'Abc', 'ABC', 'abd', 'ab', 'a b', 'é', 'É', 'z', 'Z', '_', '~', '0a', 'a0', 'true', 'False', '#N/A!', 'N/A', '#n/a']
+                'Abc', 'ABC', 'abd', 'ab', 'a b', 'é', 'É', 'z', 'Z', '_', '~', '0a', 'a0', 'true', 'False', '#N/A!', 'N/A', '#n/a',
+                '-inf', 'Infinity', 'NaN', '-1e999', '1e-400', '1__0', '_1', '0x10', '\u0661\u0662']
 
 
 def run(ctx):
